@@ -1678,7 +1678,8 @@ _PURE_DOTTED = {'textwrap.dedent': __import__('textwrap').dedent, 'textwrap.inde
                 'string.capwords': __import__('string').capwords, 'unicodedata.normalize': __import__('unicodedata').normalize,
                 # read-only queries of interpreter state: a representative value (nothing in pedal's logic may depend
                 # on which)
-                'string.Formatter': __import__('string').Formatter, 'str.maketrans': str.maketrans,
+                'string.Formatter': __import__('string').Formatter, 'types.ModuleType': __import__('types').ModuleType,
+                'types.SimpleNamespace': __import__('types').SimpleNamespace, 'str.maketrans': str.maketrans,
                 'sys.getrecursionlimit': lambda: 1000, 'os.getcwd': lambda: '/cwd', 'os.getpid': lambda: 4242,
                 'sys.getswitchinterval': lambda: 0.005, 'threading.active_count': lambda: 1}
 
